@@ -353,6 +353,13 @@ def run(ctx):
             can = prog.an(cb)
             # identity of the allocation: Weak::ptr_eq, or the raw addresses compared with ptr::eq
             pe = [blk for blk in cb.blocks if blk.term.kind == 'call' and any(n.endswith('Weak::ptr_eq') or strip_generics(n) in ('std::ptr::eq', 'core::ptr::eq') for n in blk.term.callee_names())]
+            # `ptr::eq` compares the addresses of what its arguments point to: with `T = Arc<..>` / `Weak<..>` / `&..` these are
+            # the addresses of two *handles* (a local and the caller's), never equal - the entry is never found
+            handle_cmp = [blk for blk in pe if any(strip_generics(n) in ('std::ptr::eq', 'core::ptr::eq') for n in blk.term.callee_names()) and
+                          adt_of((blk.term.func.const.get('targs') or [''])[0]) != SC]
+            for blk in handle_cmp:
+                ctx.ob('R16.6', 'the registry compares the caches, not the handles that point to them', False, ctx.where(cb, blk.term.line),
+                       'ptr::eq::<%s> compares the addresses of two handles' % (blk.term.func.const.get('targs') or ['?'])[0], construct='registry:detach-handle-compare')
             if len(pe) == 1:
                 # returns NOT ptr_eq
                 rsrc = set()
